@@ -224,6 +224,7 @@ struct cp_data_t
 
    size_t            lang_flags;        //! defines the language of the source input
    bool              lang_forced;       //! overwrites automatic language detection
+   size_t            lang_flags_forced; //! the language given with -l (lang_flags may be extended while parsing a file)
 
    bool              unc_off;
    bool              unc_off_used;       //! true if the `disable_processing_cmt` option was actively used in the processed file
